@@ -8,9 +8,9 @@ import (
 	"flag"
 	"fmt"
 	"io"
-	"os"
 	"math"
 	"net"
+	"os"
 	"sync"
 
 	"k8s.io/klog/v2"
